@@ -539,6 +539,44 @@ def fam_g_compute_synthetic_partials(cls):
                       functions=[f"{cls.name}._compute_synthetic_partials"])
 
 
+def fam_g_reducer(cls, rule):
+    """A rewrite rule of an n-ary class for every arity: declines, or the result refines self."""
+    from .reduce import refines_obligations, IMPORTERS
+    nm = f"{cls.name}[any arity].{rule}"
+
+    def run(prog, tier):
+        fd = cls.lookup(rule)
+
+        def setup(I):
+            pt = H.make_point(I)
+            I.ghost["ambient_names"] = []
+            slf = make_self_g(I, cls)
+            I.ghost["self"], I.ghost["pt"] = slf, pt
+            return lambda: I.call_funcdef(fd, [slf], {})
+
+        def post(I, res, emit):
+            slf, pt = I.ghost["self"], I.ghost["pt"]
+            if res.outcome[0] == "raise":
+                emit("no-exception", ["C08", "C17"], z3.BoolVal(False), info=f"{H.exc_kind(res.outcome[1])} at {res.outcome[2]}")
+                return
+            r = res.outcome[1]
+            if r is None:
+                emit("declines", ["C08"], z3.BoolVal(True))
+                return
+            if not (isinstance(r, Obj) and (r.cls is None or r.cls.name in sym.CLS)):
+                emit("returns-expression-or-None", ["C08", "C17"], z3.BoolVal(False), info=repr(r))
+                return
+            ds, dr = spec.den(I, slf, pt), spec.den(I, r, pt)
+            emit("result-mentions-no-new-variable", list(IMPORTERS),
+                 gmode.skolem_subset(I, spec.vars_of(I, r), spec.vars_of(I, slf), "vars"))
+            emit("refines", list(IMPORTERS), z3.Implies(ds.D, z3.And(dr.D, dr.V == ds.V)))
+        return H.run_family(prog, nm, setup, post)
+    return FamilySpec(nm, list(IMPORTERS) + ["C17"], run, functions=[f"{cls.name}.{rule}"], optional=True)
+
+
+G_REDUCERS = [("Multiply", "_reduce_product_when_multiplying_by_zero"), ("Multiply", "_reduce_product_by_eliminating_ones"),
+              ("Add", "_reduce_sum_by_eliminating_zeros")]
+
 _specs4 = specs
 
 
@@ -550,4 +588,7 @@ def specs(prog, tier):                                    # noqa: F811
     sp2 = fam_g_compute_synthetic_partials(prog.classes["Multiply"])
     sp2.optional = True
     out.append(sp2)
+    for cname, rule in G_REDUCERS:
+        if prog.classes[cname].lookup(rule) is not None:
+            out.append(fam_g_reducer(prog.classes[cname], rule))
     return out
